@@ -35,6 +35,13 @@ def gen_max_color(rng, i=None):
             sh.fill = e2e.Solid((0, 0, 0), 1.0)
             sh.fill.current = True
             sh.opacity = 0.5
+    overflow = i % 8 in (3, 7)
+    if overflow:
+        # ink outside the viewBox (built with clip_to_viewbox off): every colour table must
+        # keep it
+        g0 = glyphs[0]
+        x, y, w, h = g0.viewbox
+        g0.items.append(e2e.Shape([(x - 0.25 * w, y + 0.3 * h), (x + 0.2 * w, y + 0.3 * h), (x + 0.2 * w, y + 0.6 * h), (x - 0.25 * w, y + 0.6 * h)], e2e.Solid(e2e._rgb(rng)), 1.0))
     if i % 8 == 4:
         # a source that paints nothing sits between the others: its glyph is no colour glyph,
         # so the colour glyphs do not form one run of consecutive glyph ids
@@ -60,7 +67,7 @@ def gen_max_color(rng, i=None):
     return {
         "glyphs": glyphs,
         # font metrics by case index: default (advance 1275), narrower fixed advances, proportional
-        "overrides": dict([{}, dict(upem=1000, ascender=800, descender=-200, width=1000), dict(upem=2048, ascender=1900, descender=-500, width=0), dict(width=600)][i % 4], color_format=fmt, output_file="in.ttf", keep_glyph_names=rng.random() < 0.5, _layout=len(glyphs) >= 3 and i % 8 in (0, 2, 5, 6)),
+        "overrides": dict([{}, dict(upem=1000, ascender=800, descender=-200, width=1000), dict(upem=2048, ascender=1900, descender=-500, width=0), dict(width=600)][i % 4], color_format=fmt, output_file="in.ttf", clip_to_viewbox=not overflow, keep_glyph_names=rng.random() < 0.5, _layout=len(glyphs) >= 3 and i % 8 in (0, 2, 5, 6)),
         "bitmaps": i % 8 in (1, 4, 5),
         "keep_names": rng.random() < 0.5,
     }
@@ -211,7 +218,9 @@ def max_color_problems(glyphs, overrides, bitmaps, keep_names, result):
         margin = (4.0 + 0.4 * s) / s
         if e2e.has_hard_stop(g):
             continue
-        for p in e2e.sample_points(g.viewbox, 8):
+        vx, vy, vw, vh = g.viewbox
+        # (also left and right of the viewBox: ink there must survive in every table)
+        for p in e2e.sample_points(g.viewbox, 8) + e2e.sample_points((vx - 0.3 * vw, vy, 0.3 * vw, vh), 4):
             if e2e.near_edge(g, p, margin):
                 continue
             q = e2e.ap(F, p)
